@@ -102,7 +102,9 @@ pub fn gen(seed: u64, tier: &str) -> Vec<Value> {
         let headers: Vec<Value> = (0..nh).map(|_| {
             let name = names[rng.gen_range(0..names.len())];
             let len = rng.gen_range(0..7);
-            let v: Vec<u8> = if name.ends_with("-bin") { let raw: Vec<u8> = (0..len).map(|_| rng.gen()).collect(); base64_nopad(&raw) } else { (0..len).map(|_| rng.gen_range(0x21..0x7fu8)).collect() };
+            let v: Vec<u8> = if name.ends_with("-bin") { let raw: Vec<u8> = (0..len).map(|_| rng.gen()).collect();
+                // binary values arrive padded as often as not (both are legal on the wire; tonic's own client sends them un-padded)
+                if rng.gen_bool(0.5) { use base64::Engine; base64::engine::general_purpose::STANDARD.encode(&raw).into_bytes() } else { base64_nopad(&raw) } } else { (0..len).map(|_| rng.gen_range(0x21..0x7fu8)).collect() };
             json!({"n": name, "v": bytes_json(&v)})
         }).collect();
         let na = rng.gen_range(0..4);
